@@ -51,6 +51,9 @@ class VStar(V):          # *x in a call
 class VClosure(V):       # a lambda / nested def defined in verified text
     node: object; env: object; scope: object
 
+@dataclass(frozen=True)
+class VExc(V):           # an exception instance constructed in verified text: class is concrete
+    cls: object; args: tuple = ()
 @dataclass
 class Obl:
     name: str; kind: str; pc: tuple; goal: object; where: str = ''
@@ -86,7 +89,7 @@ class Exec:
         self.uni = uni; self.scope = dict(scope or {}); self.obls = []; self.name = name
         self.prune = prune; self.call_model = call_model or {}; self._solver = None; self.npaths = 0
         self.inline_repo_funcs = inline_repo_funcs; self.assumptions = set(); self.dropped = set()
-        self._axioms = None; self.nprune = 0
+        self._axioms = None; self.nprune = 0; self.raised = []
     # ------------------------------------------------------------ helpers
     def obl(self, st, kind, goal, where=''):
         self.obls.append(Obl(f'{self.name}.{kind}.{len(self.obls)}', kind, st.pc, goal, where))
@@ -318,8 +321,10 @@ class Exec:
             outs += self.getattr_(s, b, n.attr)
         return outs
     def getattr_(self, s, b, name):
-        if isinstance(b, VPy) and not isinstance(b.o, (int, str)) and hasattr(b.o, name) and not callable(getattr(b.o, name)):
-            return [(s, self.wrap(getattr(b.o, name)))]
+        if isinstance(b, VPy) and not isinstance(b.o, (int, str, dict, list, tuple, set, frozenset)):
+            try: v = getattr(b.o, name)
+            except AttributeError: return [(s, VBound(b, name))]
+            if not callable(v) or isinstance(v, (types.FunctionType, types.MethodType, type)): return [(s, self.wrap(v))]
         return [(s, VBound(b, name))]
     def e_Lambda(self, n, st):
         return [(st, VClosure(n, st.env, None))]
@@ -356,6 +361,10 @@ class Exec:
             if h: return h(self, s, args, kwargs, where)
             if isinstance(o, types.FunctionType) and self.inline_repo_funcs and self.is_repo_func(o):
                 return self.inline(s, o, args, kwargs, where)
+            if isinstance(o, types.MethodType) and self.inline_repo_funcs and self.is_repo_func(o.__func__):
+                return self.inline(s, o.__func__, (VPy(o.__self__),) + tuple(args), kwargs, where)
+            if isinstance(o, type) and issubclass(o, BaseException):
+                return [(s, VExc(o, tuple(args)))]
             if callable(o):
                 # user callable (validator lambda, instance-check hook, ...): abstract, deterministic, may run user code
                 if len(args) == 1 and not kwargs:
@@ -392,7 +401,7 @@ class Exec:
                 except ValueError: pass
         sub = Exec(self.uni, scope, prune=self.prune, call_model=self.call_model, name=self.name + '>' + o.__name__,
                    inline_repo_funcs=self.inline_repo_funcs)
-        sub.obls = self.obls; sub.assumptions = self.assumptions; sub.dropped = self.dropped
+        sub.obls = self.obls; sub.assumptions = self.assumptions; sub.dropped = self.dropped; sub.raised = self.raised
         return sub.run_function(node, s, args, kwargs, o)
     def bind_params(self, node, s, args, kwargs, defaults_from=None):
         a = node.args; env = {}
@@ -430,10 +439,9 @@ class Exec:
             back = St(s.env, s2.pc, s2.cost, s2.effects, s2.events)
             if kind == 'next': outs.append((back, VPy(None)))
             elif kind == 'return': outs.append((back, v))
-            elif kind == 'raise': self.pending_raises.append((back, v))
+            elif kind == 'raise': self.raised.append((back, v))
             else: raise Unsupported('completion ' + kind)
         return outs
-    pending_raises = []
     def call_closure(self, s, f, args, kwargs, where):
         if isinstance(f.node, ast.Lambda):
             env = self.bind_params(f.node, s, args, kwargs)
@@ -552,7 +560,11 @@ class Exec:
     def exec_stmt(self, n, st):
         m = getattr(self, 's_' + type(n).__name__, None)
         if m is None: raise Unsupported(f'statement {type(n).__name__}: {ast.unparse(n)[:80]}')
-        return m(n, st)
+        mark = len(self.raised)
+        outs = m(n, st)
+        new = self.raised[mark:]; del self.raised[mark:]
+        # exceptions raised inside inlined callees surface at the enclosing statement of the caller
+        return outs + [('raise', St(st.env, s.pc, s.cost, s.effects, s.events), v) for s, v in new]
     def s_Expr(self, n, st):
         if isinstance(n.value, ast.Constant): return [('next', st, None)]   # docstring
         return [('next', s, None) for s, _ in self.eval(n.value, st)]
@@ -561,8 +573,46 @@ class Exec:
         if n.value is None: return [('return', st, VPy(None))]
         return [('return', s, v) for s, v in self.eval(n.value, st)]
     def s_Raise(self, n, st):
-        if n.exc is None: return [('raise', st, None)]
+        if n.exc is None: return [('raise', st, st.get('__exc__'))]
         return [('raise', s, v) for s, v in self.eval(n.exc, st)]
+    def exc_matches(self, exc, handler_type_v):
+        """-> True/False/None(unknown) : does the handler catch this exception value"""
+        if handler_type_v is None: return True
+        hts = handler_type_v.o if isinstance(handler_type_v, VPy) else None
+        if isinstance(handler_type_v, VTup): hts = tuple(x.o for x in handler_type_v.items if isinstance(x, VPy))
+        if hts is None: return None
+        if isinstance(exc, VExc):
+            try: return issubclass(exc.cls, hts)
+            except TypeError: return None
+        return None
+    def s_Try(self, n, st):
+        outs = []
+        body = self.exec_block(n.body, st)
+        after = []
+        for kind, s, v in body:
+            if kind == 'raise':
+                handled = False
+                for h in n.handlers:
+                    ht = None
+                    if h.type is not None:
+                        r = self.eval(h.type, s)
+                        if len(r) != 1: raise Unsupported('handler type forks')
+                        ht = r[0][1]
+                    m = self.exc_matches(v, ht)
+                    if m is None: raise Unsupported(f'cannot decide whether `except {ast.unparse(h.type) if h.type else ""}` catches {v}')
+                    if m:
+                        s2 = s.set('__exc__', v) if v is not None else s
+                        if h.name: s2 = s2.set(h.name, v if v is not None else VPy(None))
+                        after += self.exec_block(h.body, s2); handled = True; break
+                if not handled: after.append((kind, s, v))
+            elif kind == 'next' and n.orelse:
+                after += self.exec_block(n.orelse, s)
+            else: after.append((kind, s, v))
+        if not n.finalbody: return after
+        for kind, s, v in after:
+            for k2, s2, v2 in self.exec_block(n.finalbody, s):
+                outs.append((kind, s2, v) if k2 == 'next' else (k2, s2, v2))
+        return outs
     def s_Assign(self, n, st):
         outs = []
         for s, v in self.eval(n.value, st):
